@@ -118,8 +118,19 @@ impl<T: Qcow2IoOps> Qcow2Dev<T> {
 
     pub(crate) async fn load_refcount_table(&self) -> Qcow2Result<usize> {
         let h = self.header.read().await;
-        self.load_top_table(&self.reftable, h.reftable_offset())
-            .await
+        let res = self
+            .load_top_table(&self.reftable, h.reftable_offset())
+            .await?;
+
+        // The image header is refcounted by the first refcount block, so
+        // the first entry is never empty in a valid image. With an empty
+        // one the allocator would build 'the missing refcount block' where
+        // its range starts: on top of the header.
+        if self.reftable.read().await.get(0).is_zero() {
+            return Err("refcount table has no refcount block for the image header".into());
+        }
+
+        Ok(res)
     }
 
     pub(crate) async fn load_l1_table(&self) -> Qcow2Result<usize> {
